@@ -397,7 +397,32 @@ def sequence_cases(draw):
     entries = draw(st.lists(entry, min_size=3, max_size=8))
     n = len(entries)
     order = draw(st.lists(st.integers(0, n - 1), min_size=n, max_size=3 * n))
-    return {"entries": [list(e) for e in entries], "order": order}
+    # after which steps the caller modifies what that lookup returned, in place (seeded/C20-s4)
+    mutate = draw(st.lists(st.booleans(), min_size=len(order), max_size=len(order)))
+    return {"entries": [list(e) for e in entries], "order": order, "mutate": mutate}
+
+
+def _modify_in_place(api, name) -> int:
+    """What a caller may do with a result: accumulate into the returned quantities in place."""
+    import scipp as sc
+    from scippneutron.atoms import Atom, ScatteringParams
+
+    try:
+        obj = (ScatteringParams if api == "scattering" else Atom).for_isotope(name)
+    except Exception:  # noqa: BLE001 - rejected names return nothing to modify
+        return 0
+    n = 0
+    fields = [f for f, _ in csvtab.SCATTERING_FIELDS] if api == "scattering" else ["atomic_weight", "atomic_mass"]
+    for f in fields:
+        try:
+            v = getattr(obj, f)
+        except ValueError:
+            continue
+        if isinstance(v, sc.Variable):
+            v *= 2.0
+            v += sc.scalar(1.0, unit=v.unit)
+            n += 1
+    return n
 
 
 def check_sequence(case):
@@ -418,6 +443,8 @@ def check_sequence(case):
         if (api, name) in seen:
             labels.append("repeat:" + ("rejected" if ":rejected:" in labs[0] else "found"))
         seen[(api, name)] = outcome
+        if case.get("mutate") and case["mutate"][step] and _modify_in_place(api, name):
+            labels.append("result-modified-in-place")
     distinct = len(seen)
     repeated = len(case["order"]) > distinct
     labels.append(f"distinct:{min(distinct, 8)}")
